@@ -400,9 +400,9 @@ func init() {
 		Rule: "all strings of length 0..4 (quick) / 0..5 (thorough) over {a,b,é,€,😀,U+0301} plus periodic strings of length 6..12; for each: length, toChars, upper, lower, substring for all start in [-2,len+2] u {MinInt32,MaxInt32} x all len in [-1,len+2] u {MaxInt32}, indexOf/contains/startsWith/endsWith for every substring and every pattern of length <=2, replace with 3 substitutions; String variables, literals and FHIR string/code/uri/markdown/id receivers; compared with a rune-slice reference and the four consequences on the implementation's own outputs; distinct by construction",
 		Assumptions: []string{"a character is a Unicode code point (a combining mark is its own character)", "substring with a non-positive length: '' and empty are both accepted (the specification is silent)", "upper/lower use per-code-point simple case mapping"},
 		Subs: func(tier string) []core.Sub {
-			maxLen := 4
+			maxLen := 5
 			if tier == "thorough" {
-				maxLen = 5
+				maxLen = 6
 			}
 			strs := c14Strings(maxLen)
 			per := c14Periodic()
